@@ -814,9 +814,12 @@ theorem formatDev_ok {size cb ro fmtBs : Nat} {p : Params} {d : Dev}
   | some rc =>
     cases hn : Info.new { clusterBits := cb, refcountOrder := ro, size := size, hasBackingName := false } p with
     | ok info =>
-      simp only [hr, hn, Outcome.bind_ok, Outcome.ok.injEq] at h
-      subst h
-      exact ⟨rc, info, rfl, rfl, rfl, rfl, rfl, rfl, rfl, rfl, rfl, rfl, rfl⟩
+      simp only [hr, hn, Outcome.bind_ok] at h
+      split at h
+      · cases h
+      · simp only [Outcome.ok.injEq] at h
+        subst h
+        exact ⟨rc, info, rfl, rfl, rfl, rfl, rfl, rfl, rfl, rfl, rfl, rfl, rfl⟩
     | err e => simp [hr, hn] at h
     | panic s => simp [hr, hn] at h
 
